@@ -707,9 +707,18 @@ impl Monitors {
                     let jm = self.jobs.entry(task_id.job_id()).or_default();
                     jm.n_failed += 1;
                     if let Some(m) = jm.max_fails {
-                        if jm.n_failed > m && jm.exceeded_step.is_none() {
-                            jm.exceeded_step = Some(step);
-                            delta.maxfail_exceeded.push(task_id.job_id());
+                        // every failure that leaves the job above its limit is a moment at which
+                        // "the number of failed tasks exceeds the limit": also a failure among tasks
+                        // submitted into an open job after the limit had been exceeded before
+                        if jm.n_failed > m {
+                            if jm.exceeded_step.is_none() {
+                                jm.exceeded_step = Some(step);
+                            } else {
+                                delta.maxfail_again = true;
+                            }
+                            if !delta.maxfail_exceeded.contains(&task_id.job_id()) {
+                                delta.maxfail_exceeded.push(task_id.job_id());
+                            }
                         }
                     }
                 }
@@ -1025,6 +1034,9 @@ impl Monitors {
         }
         if !delta.maxfail_exceeded.is_empty() {
             obs.class("maxfails-exceeded");
+        }
+        if delta.maxfail_again {
+            obs.class("failure-above-the-limit-after-a-later-submit");
         }
 
         self.prev_views = views;
@@ -2793,4 +2805,5 @@ pub struct MicroDelta {
     pub lost: Vec<(WorkerId, LostWorkerReason)>,
     pub lost_running: Vec<(TaskId, WorkerId, LostWorkerReason)>,
     pub maxfail_exceeded: Vec<JobId>,
+    pub maxfail_again: bool,
 }
